@@ -251,3 +251,8 @@ mod tests {
         assert_eq!(indices, &[0, 3, 7]);
     }
 }
+
+#[cfg(kani)]
+pub(crate) mod verif {
+    include!(concat!(env!("PROFIRUST_VERIF_HARNESS"), "/dp_peripheral_set.rs"));
+}
